@@ -216,6 +216,39 @@ Theorem C16_ps_update_mirrors_axes_and_clock : forall i b b',
 Proof. exact ps_update_mirrors. Qed.
 Print Assumptions C16_ps_update_mirrors_axes_and_clock.
 
+Theorem C16_ps_update_mirrors_time : forall i b b',
+  length b = AlayLayout.ps_size -> bytes b -> 0 <= pi_mjd i < 2 ^ 64 ->
+  ps_update AlayLayout.ps_table AlayLayout.env_default i b = Some b' ->
+  getn AlayLayout.ps_table "actTime" b' = Some (VReal (pi_mjd i)).
+Proof. exact ps_update_mirrors_time. Qed.
+Print Assumptions C16_ps_update_mirrors_time.
+
+(* the table bookkeeping published after update_status, by the tracking state [st] the block held
+   before the call: states other than 2 / 3, and state 2 before the start time, keep the four fields;
+   a running track (state 3, or state 2 whose start time has come) publishes state 3, the lookup
+   index, the remaining length and the last index; an exhausted table publishes state 4 and zeros *)
+Theorem C16_ps_update_tracking_fields : forall i b b' st,
+  length b = AlayLayout.ps_size -> bytes b ->
+  ps_update AlayLayout.ps_table AlayLayout.env_default i b = Some b' ->
+  get_int AlayLayout.ps_table "ptState" b = Some st ->
+  let T := AlayLayout.ps_table in
+  (st <> 2 -> st <> 3 ->
+     getn T "ptState" b' = getn T "ptState" b /\ getn T "ptActTableIndex" b' = getn T "ptActTableIndex" b /\
+     getn T "ptTableLength" b' = getn T "ptTableLength" b /\ getn T "ptEndTableIndex" b' = getn T "ptEndTableIndex" b) /\
+  (st = 2 -> pi_before_start i = true ->
+     getn T "ptState" b' = getn T "ptState" b /\ getn T "ptActTableIndex" b' = getn T "ptActTableIndex" b /\
+     getn T "ptTableLength" b' = getn T "ptTableLength" b /\ getn T "ptEndTableIndex" b' = getn T "ptEndTableIndex" b) /\
+  (st = 3 \/ (st = 2 /\ pi_before_start i = false) -> pi_index i <> pi_ntimes i ->
+     getn T "ptState" b' = Some (VInt 3) /\
+     getn T "ptActTableIndex" b' = Some (VInt (pi_index i)) /\
+     getn T "ptTableLength" b' = Some (VInt (pi_ntimes i - pi_index i)) /\
+     getn T "ptEndTableIndex" b' = Some (VInt (Z.max (pi_ntimes i - pi_index i - 1) 0))) /\
+  (st = 3 \/ (st = 2 /\ pi_before_start i = false) -> pi_index i = pi_ntimes i ->
+     getn T "ptState" b' = Some (VInt 4) /\ getn T "ptActTableIndex" b' = Some (VInt 0) /\
+     getn T "ptTableLength" b' = Some (VInt 0) /\ getn T "ptEndTableIndex" b' = Some (VInt 0)).
+Proof. exact ps_update_tracking. Qed.
+Print Assumptions C16_ps_update_tracking_fields.
+
 (* ---------- command histories: the recorded mode command is a documented code; subsystems do not
    share status ---------- *)
 Theorem C16_received_mode_documented : forall m,
